@@ -491,7 +491,6 @@ harnesses! {
     c14_set: [0, 0] [1, 1] [2, 2] [3, 3] [1, 3] [3, 1] [0, 2] [2, 0] [2, 3];
     @deep
     c14_partial: [4];
-    c08_difference_ref_slices: [3, 2] [2, 3];
     c08_union: [4, 4] [4, 2] [2, 4];
     c08_intersection: [4, 4] [4, 2] [2, 4];
     c08_difference: [4, 4] [4, 2] [2, 4];
